@@ -30,11 +30,17 @@ UNARMED_OK = {
 }
 
 
+# callees that consume N values from the LPC value stack: name -> index of the count argument
+STACK_CONSUMERS = {"apply": 2, "apply_low": 2, "safe_apply": 2, "call_function_pointer": 1, "safe_call_function_pointer": 1,
+                   "apply_master_ob": 1, "safe_apply_master_ob": 1, "pop_n_elems": 0, "call_function": 2}
+
+
 def check(run, prog, tier):
     run.rule("C05-a", "error_context_t typestate: no raising call while saved-but-unarmed or before restore_context on the jump branch; every exit popped; no double save; save result tested unless shallow", 30)
     run.rule("C05-b", "save/restore field agreement: fields written by save_context are consumed by restore/pop_context; registers saved by push_control_stack are restored by pop_control_stack", 2)
     run.rule("C05-c", "error_handler: reset_destruct_object_limits and reset_load_object_limits dominate every longjmp; in_error/in_mudlib_error_handler are not left set at any longjmp", 4)
     run.rule("C05-d", "a static re-entrancy guard set around raising calls is cleared on the error path (error_handler resets it or a recovery point surrounds the calls)", 1)
+    run.rule("C05-f", "protected-call wrappers (safe_apply, safe_call_function_pointer, ...) consume their stacked arguments on every path, including the recovery branch", 2)
     run.rule("C05-e", "catch path: catch_value receives a copy of the error text before the jump to do_catch", 1)
 
     cg = callgraph.CallGraph(prog)
@@ -105,6 +111,41 @@ def check(run, prog, tier):
             run.ob("C05-a", "%s:%s:exits" % (base, v[0]), not bad,
                    "every return leaves %s popped or never saved" % v[0] if not bad else "return at line(s) %s with %s still registered (states %s)" % (sorted({b[2] for b in bad}), v[0], bad[0][1]),
                    f.file, bad[0][2] if bad else f.line, f.name, what="%s returns without pop_context" % f.name)
+
+    # ---- C05-f argument consumption on every path of the protected-call wrappers
+    for f in sorted(users, key=lambda x: (x.file, x.line)):
+        for p in f.params:
+            if p.get("t") != "int":
+                continue
+            consumers = set()
+            is_count = False
+            for b, i, n in f.calls():
+                ci = STACK_CONSUMERS.get(n.get("fn"))
+                if ci is None or ci >= len(n.get("args", [])):
+                    continue
+                a = strip(n["args"][ci])
+                if a.get("k") == "Ref" and a.get("d") == "param" and a.get("pi") == p.get("pi"):
+                    consumers.add(b.id)
+                    if n.get("fn") != "pop_n_elems":
+                        is_count = True
+            if not is_count:
+                continue
+            # start after a successful save_context
+            starts = []
+            for b, i, n in f.calls("save_context"):
+                c = f.branch_cond(b)
+                if c is not None and any(x.get("fn") == "save_context" for x in walk(c) if x.get("k") == "Call"):
+                    e, t = normalize_cond(c, True)
+                    # successor taken when save_context(...) is non-zero
+                    starts.append(b.succ[0] if t else b.succ[1])
+                else:
+                    starts.extend(b.live_succ())
+            starts = [s0 for s0 in starts if s0 is not None]
+            path = f.reach_avoiding(starts, lambda blk: f.exit in blk.live_succ() and not blk.nr, avoid_blocks=consumers)
+            run.ob("C05-f", "args:%s:%s:%s" % (rel(f.file), f.name, p["n"]), path is None,
+                   "every path after a successful save_context consumes the %s stacked arguments (callee or pop_n_elems)" % p["n"] if path is None
+                   else "path %s returns without consuming the %s stacked arguments (value stack not restored)" % (path, p["n"]),
+                   f.file, f.line, f.name, what="%s: a path returns leaving its %s arguments on the value stack" % (f.name, p["n"]))
 
     # ---- C05-b field agreement
     def fields_written(f, rec, via_param=None):
@@ -229,19 +270,36 @@ def check(run, prog, tier):
                    what="error_handler jumps out with %s still set: later errors are treated as nested" % fl)
 
     # ---- C05-e
-    cv_ok = False
+    cv_ok, cv_why = False, "no assignment of the error text to catch_value before the catch longjmp"
     for b, i, n in eh.nodes():
         if n.get("k") == "Asg":
             l = strip(n["L"])
             if show(l) == "catch_value.u.string":
                 r0 = strip(n["R"])
                 from_err = any(x.get("k") == "Ref" and x.get("d") == "param" for x in walk(r0))
-                # dominates a longjmp that is guarded by the FRAME_CATCH test
                 for lb, li, ln in ljs:
-                    if eh.point_dominates((b.id, i), (lb.id, li)) and from_err:
-                        cv_ok = True
-    run.ob("C05-e", "catch-value", cv_ok, "catch_value.u.string := copy of err dominates the catch longjmp" if cv_ok else "no assignment of the error text to catch_value before the catch longjmp",
-           eh.file, eh.line, "error_handler", what="catch does not yield the raised message")
+                    if not (eh.point_dominates((b.id, i), (lb.id, li)) and from_err):
+                        continue
+                    # catch_value is one global shared by every catch: nothing that can run LPC code (and so
+                    # another catch) may execute between building it and the jump
+                    region = cfgq.reach_set(eh, [b.id], avoid_blocks=[lb.id]) | {lb.id}
+                    lpc = []
+                    for b2, i2, n2 in eh.nodes():
+                        if n2.get("k") != "Call" or b2.id not in region:
+                            continue
+                        if b2.id == b.id and i2 <= i:
+                            continue
+                        if b2.id == lb.id and i2 >= li:
+                            continue
+                        if not (lb.id == b2.id or lb.id in cfgq.reach_set(eh, [b2.id])):
+                            continue
+                        if eff.call_may_run_lpc(eh, n2):
+                            lpc.append("%s (line %s)" % (n2.get("fn") or show(n2), n2.get("l")))
+                    if lpc:
+                        cv_why = "LPC code can run between catch_value := err and the jump: %s" % lpc[:4]
+                    else:
+                        cv_ok, cv_why = True, "catch_value.u.string := copy of err dominates the catch longjmp with no LPC-running call in between"
+    run.ob("C05-e", "catch-value", cv_ok, cv_why, eh.file, eh.line, "error_handler", what="catch does not yield the raised message: " + cv_why)
 
     # ---- C05-d: compile_file's static guard
     cf = run.need(prog.func("compile_file"), "compile_file")
